@@ -312,6 +312,13 @@ class World:
             return T.ItemsView[kk, vv] if sp % 2 else cabc.ItemsView[kk, vv]
         if k == "gen":
             return (self.GL if s == "GL" else self.G)[self.hint(a[0], sp)]
+        if k == "rec":
+            # PEP 695 recursive alias  type R = list[R | <child>]  (lazily evaluated in its own namespace)
+            self._tv += 1
+            name = f"R{self.n}_{self._tv}"
+            ns = {"C": self.hint(a[0], 0)}
+            exec(f"type {name} = list[{name} | C]", ns)
+            return ns[name]
         if k == "ann":
             base = self.hint(a[0], 0)
             vals = tuple(self.validator(v) for v in h["m"])
@@ -436,6 +443,8 @@ def short_hint(h) -> str:
         return s + "[..]"
     if k == "gen":
         return s + "[" + short_hint(a[0]) + "]"
+    if k == "rec":
+        return "RecList[" + short_hint(a[0]) + "]"
     if s == "tuple":
         return "tuple[" + short_hint(a[0]) + ",...]"
     return s + "[" + ",".join(short_hint(c) for c in a) + "]"
